@@ -127,3 +127,17 @@ Proof.
     apply resumes_uninterrupted_of_go_on; [reflexivity|].
     exact (resumable_resumes _ _ _ _ _ _ _ module_resumable).
 Qed.
+
+Lemma alb_resumes :
+  forall (T : Type) (O : NumOps T),
+    resumes_like_uninterrupted (alb_machine O) (fun _ => True) eq eq eq /\
+    saves_what_it_loaded (alb_machine O) (fun _ => True) eq /\
+    resumes_repeatedly (alb_machine O) (fun _ => True).
+Proof.
+  intros T O. pose proof (alb_resumable O) as HR.
+  assert (HU : resumes_like_uninterrupted (alb_machine O) (fun _ => True) eq eq eq).
+  { apply resumes_uninterrupted_of_go_on; [reflexivity|]. exact (resumable_resumes _ _ _ _ _ _ _ HR). }
+  split; [exact HU|]. split.
+  - exact (resumable_saves _ _ _ _ _ _ _ HR).
+  - exact (resume_chain _ _ eq eq HU).
+Qed.
